@@ -85,7 +85,8 @@ func runC05(t *testing.T, r *engine.Run) {
 	reconnect := func(c *xdsClient) {
 		inst := insts[tp.Choose(len(insts), "reconnInst")]
 		permute := tp.Bool(1, 3, "permuteDeps")
-		r.Logf("%s reconnects to %s (stream #%d, deps first=%v) retaining %d types", c.name, inst.name, c.streams+1, permute, len(c.sub))
+		c.presentNonce = c.delta && tp.Bool(1, 3, "presentNonce")
+		r.Logf("%s reconnects to %s (stream #%d, deps first=%v, old nonce presented=%v) retaining %d types", c.name, inst.name, c.streams+1, permute, c.presentNonce || !c.delta, len(c.sub))
 		r.Fault("client_reconnect")
 		w.connect(c, inst, permute)
 	}
